@@ -13,7 +13,7 @@ Open Scope Z_scope.
 Ltac split_ifs :=
   repeat match goal with
          | |- context [if ?c then _ else _] => let E := fresh "E" in destruct c eqn:E
-         end; try reflexivity; try (exfalso; lia); try lia.
+         end; try reflexivity; try (exfalso; lia); try lia; try nia.
 
 Ltac both_bool :=
   match goal with |- ?l = ?r => let E1 := fresh "E" in let E2 := fresh "E" in
@@ -38,7 +38,8 @@ Proof.
   unfold torus_adj, gen_cs_torus_adj, lcfg_of. cbn [lc_bounds lc_torus].
   rewrite (oob_bridge x0 x1 y0 y1 x y). cbn [fst snd]. unfold lb. cbn [wrap].
   destruct (gen_cs_out_of_bounds x0 x1 y0 y1 (x, y)); destruct t; cbn [negb res_of_pair]; try reflexivity;
-    cbv zeta; unfold res_of_pair; repeat f_equal; try reflexivity; lia.
+    cbv zeta; unfold res_of_pair;
+    match goal with |- Ok [?a; ?b] = Ok [?c; ?d] => replace c with a by lia; replace d with b by lia; reflexivity end.
 Qed.
 
 (* get_distance, read squared *)
@@ -238,7 +239,15 @@ Lemma compact_bridge s a index s' :
   e_n s' = (e_n s - 1)%nat.
 Proof.
   intros Ha Hlt. unfold remove_agent. rewrite Ha. intros H. inversion H. subst s'. clear H.
-  cbn [e_store e_n]. unfold gen_cs_compact, slice_copy.
+  cbn [e_store e_n]. unfold slice_copy.
+  destruct (gen_cs_compact (Z.of_nat index) (Z.of_nat (e_n s))) as [[a' b'] [c' d']] eqn:E.
+  unfold gen_cs_compact in E.
+  assert (a' = Z.of_nat index /\ b' = Z.of_nat (e_n s) - 1 /\ c' = Z.of_nat index + 1 /\ d' = Z.of_nat (e_n s))
+    as [Ea [Eb [Ec Ed]]].
+  { pose proof (f_equal (fun x => fst (fst x)) E) as E1. pose proof (f_equal (fun x => snd (fst x)) E) as E2.
+    pose proof (f_equal (fun x => fst (snd x)) E) as E3. pose proof (f_equal (fun x => snd (snd x)) E) as E4.
+    cbn [fst snd] in E1, E2, E3, E4. repeat split; lia. }
+  subst a' b' c' d'. clear E.
   split; [|split; [lia|reflexivity]].
   replace (Z.to_nat (Z.of_nat index)) with index by lia.
   replace (Z.to_nat (Z.of_nat (e_n s) - (Z.of_nat index + 1))) with (e_n s - 1 - index)%nat by lia.
@@ -324,3 +333,6 @@ Proof.
   cbn [ec_bounds ec_torus] in Hs. rewrite H in Hs. rewrite <- in_bounds_bridge.
   apply (norm_pos_in_bounds {| ec_bounds := bs; ec_torus := t; ec_cap := 0 |} p v); assumption.
 Qed.
+
+Lemma growth_positive_of_source n : 1 <= gen_cs_growth (Z.of_nat n).
+Proof. rewrite <- growth_bridge. unfold growth. lia. Qed.
